@@ -98,7 +98,22 @@ def run_impl(case, d):
     pool = [TraceSymbolTable()]
     model_ops = []
     problems = []
-    for op in case["params"]["ops"]:
+
+    def views(t, when):
+        # the cached Series views and the getters built on them are read after EVERY operation (a cache extended wrongly shows only on the
+        # second read): id -> string and string -> id must be those of the table
+        tab = list(t.sym_table)
+        ser = t.get_sym_table_series()
+        if list(ser.index) != list(range(len(tab))) or list(ser) != tab:
+            problems.append(f"{when}: get_sym_table_series() is not the table: {ser.to_dict()} for {tab}")
+        ids = list(range(len(tab)))
+        if t.get_symbol_names(ids) != {i: s for i, s in enumerate(tab)}:
+            problems.append(f"{when}: get_symbol_names({ids}) = {t.get_symbol_names(ids)} for the table {tab}")
+        idx = t.get_sym_index_series()
+        if idx.to_dict() != {s: i for i, s in enumerate(tab)}:
+            problems.append(f"{when}: get_sym_index_series() = {idx.to_dict()} for the table {tab}")
+    for op_no, op in enumerate(case["params"]["ops"]):
+        views(pool[op[1]] if op[0] in ("add", "addmp", "clone") else pool[0], f"before operation {op_no} {op[0]}")
         if op[0] == "add":
             pool[op[1]].add_symbols(list(op[2]))
             model_ops.append(["add", op[1], op[2]])
@@ -120,7 +135,9 @@ def run_impl(case, d):
         else:
             pool.append(TraceSymbolTable.combine_symbol_tables([pool[i] for i in op[1]]))
             model_ops.append(op)
-    return {"pool": [[list(t.sym_table), sorted(t.sym_index.items())] for t in pool], "model_ops": model_ops, "problems": problems}
+    for i, t in enumerate(pool):
+        views(t, f"at the end, table {i}")
+    return {"pool": [[list(t.sym_table), sorted(t.sym_index.items())] for t in pool], "model_ops": model_ops, "problems": problems[:6]}
 
 
 def coq_term(case, impl):
@@ -173,6 +190,23 @@ def compare(case, impl, model):
                     if [e.get("name"), e.get("cat")] != row[1:3]:
                         disc.append(f"incremental loading: rank {r} row {row[0]} decodes to {row[1:3]}, the file has {[e.get('name'), e.get('cat')]}")
                         break
+            if inc.get("views_ok") is False:
+                disc.append("incremental loading: the Series views of the symbol table (get_sym_table_series / get_symbol_names / get_sym_index_series), "
+                            "read after each step, are not the table's")
+        for o in outs:
+            sf = o["result"].get("same_file_twice") if "crash" not in o["result"] else None
+            if isinstance(sf, str):
+                disc.append(f"config {o['config']}: loading with two rank numbers given the file of another rank failed: {sf}")
+            elif sf is not None:
+                for r, rk in case["ranks"].items():
+                    evs = rk["events"]
+                    for which, rows_ in (("", sf["rows"].get(str(r), [])), (" (loaded a second time under another rank number)", sf["copies"].get(str(r), []))):
+                        for row in rows_:
+                            e = evs[row[0]]
+                            if [e.get("name"), e.get("cat")] != row[1:3]:
+                                disc.append(f"config {o['config']}: one file under two rank numbers: rank {r}{which} row {row[0]} decodes to {row[1:3]}, "
+                                            f"the file has {[e.get('name'), e.get('cat')]}")
+                                break
         for o in outs[1:]:
             res = o["result"]
             if "crash" in res:
